@@ -247,7 +247,9 @@ def corpus():
             HDR + sub(0x15, 3, b"", sublen=0) * 8,
             HDR + bytes(reply_flood),
             HDR + sub(0x15, 3, b"", sublen=0) * 512,                              # DATA length 0 flood: one scan
-            HDR + sub(0x16, 3, b"", sublen=0) * 512]
+            HDR + sub(0x16, 3, b"", sublen=0) * 512,
+            # ACKNACK base i64::MAX, numBits 1, bit 0: set() yields no member (6f37365)
+            bytes.fromhex("5254505302030102000102030405060708090a0b06011c000000000000000000ffffff7fffffffff010000000000008000000000")]
 
 
 def case_line(c):
